@@ -59,10 +59,154 @@ func VerifH_c08_l2() {
 func vMonitoredCmd(cs *clientState, kind int, args []string) (unguarded, sections int, detail, shared string) {
 	vMonitorBegin(cs)
 	panicked, _ := vCatch(func() { vCmd(cs, args...) })
+	acq := vLockAcquisitions()
 	unguarded, sections, detail, shared, _ = vMonitorEnd()
+	// (natively the monitor is absent; the number of times the command took
+	// the database mutex is what a replay can confirm)
+	vObserve("db-lock-acquisitions", acq)
 	if panicked {
 		return 0, 0, "", ""
 	}
 	vRaceWorkload(cs, kind, args)
 	return
 }
+
+// ---------------------------------------------------------------------
+// Direct check of linearizability for two clients: a command of connection
+// A runs with one command of connection B placed at any boundary of A's
+// critical sections (the entry of every lock-taking function: by G7 these
+// are the only points at which B can interfere).  The replies and the final
+// state must equal those of one of the two serial orders, which are computed
+// by running the same two commands on two identical servers.
+
+var vC08Property = [][]string{
+	{"INCR", "$K"}, {"APPEND", "$K", "ab"}, {"LPUSH", "$K", "n1"}, {"LPOP", "$K"}, {"HINCRBY", "$K", "f2", "5"}, {"SADD", "$K", "m9"},
+	{"MSET", "$K", "1", "k5", "2"}, {"MSETNX", "$K", "1", "k5", "2"}, {"MSETNX", "k5", "1", "$K", "2"}, {"RENAME", "$K", "k5"}, {"RENAME", "k2", "$K"},
+	{"RENAMENX", "$K", "k5"}, {"COPY", "$K", "k5"}, {"COPY", "k2", "$K", "REPLACE"}, {"LMOVE", "$K", "k3", "LEFT", "RIGHT"}, {"LMOVE", "k3", "$K", "RIGHT", "LEFT"},
+	{"RPOPLPUSH", "$K", "$K"}, {"SMOVE", "$K", "k4", "m2"}, {"SMOVE", "k4", "$K", "m3"}, {"SUNIONSTORE", "k5", "$K", "k4"}, {"SINTERSTORE", "$K", "$K", "k4"},
+	{"SDIFFSTORE", "k5", "k4", "$K"}, {"BITOP", "OR", "k5", "$K", "k2"}, {"BITOP", "NOT", "$K", "k2"}, {"DEL", "$K", "k2"}, {"EXISTS", "$K", "k2", "$K"},
+	{"GETSET", "$K", "n"}, {"GETDEL", "$K"}, {"SETNX", "$K", "n"}, {"SET", "$K", "n", "GET"}, {"SORT", "$K", "ALPHA", "STORE", "k5"}, {"LINSERT", "$K", "BEFORE", "e1", "n"},
+	{"HSETNX", "$K", "f9", "n"}, {"LREM", "$K", "0", "e1"}, {"SETRANGE", "$K", "1", "zz"}, {"GETEX", "$K", "PERSIST"}, {"EXPIRE", "$K", "100", "NX"}, {"LMPOP", "2", "$K", "k3", "LEFT"},
+	{"SINTERCARD", "2", "$K", "k4"}, {"MGET", "$K", "k2"}, {"DECRBY", "$K", "3"}, {"HDEL", "$K", "f1", "f2"}, {"SREM", "$K", "m1", "m2"}, {"LTRIM", "$K", "1", "-1"},
+}
+
+var vC08Interferers = [][]string{
+	{"SET", "k", "7"}, {"DEL", "k"}, {"RPUSH", "k", "zz"}, {"SADD", "k", "m2", "zz"}, {"HSET", "k", "f2", "1"},
+	{"SET", "k5", "zz"}, {"DEL", "k2", "k4"}, {"APPEND", "k", "1"}, {"LPOP", "k3"}, {"RENAME", "k", "k5"},
+}
+
+type vC08World struct {
+	a, b *clientState
+}
+
+func vC08Build(kind int, ttl bool, kv string) vC08World {
+	disp := vNewServer()
+	w := vC08World{vNewClientOn(disp), vNewClientOn(disp)}
+	vCmd(w.a, "SET", "k2", "s1")
+	vCmd(w.a, "RPUSH", "k3", "x1", "x2")
+	vCmd(w.a, "SADD", "k4", "m1", "m3")
+	switch kind {
+	case preString:
+		vCmd(w.a, "SET", "k", kv)
+	case preList:
+		vCmd(w.a, "RPUSH", "k", "e1", kv)
+	case preHash:
+		vCmd(w.a, "HSET", "k", "f1", kv, "f2", "7")
+	case preSet:
+		vCmd(w.a, "SADD", "k", "m1", "m2")
+	}
+	if kind != preAbsent && ttl {
+		vCmd(w.a, "EXPIRE", "k", "100000")
+	}
+	return w
+}
+
+type vC08Outcome struct {
+	ra, rb respValue
+	keys   [5]vKeySnap
+}
+
+func vC08Observe(w vC08World, ra, rb respValue) vC08Outcome {
+	o := vC08Outcome{ra: ra, rb: rb}
+	for i, k := range vL2Keys {
+		o.keys[i] = vSnapKey(w.a, k)
+	}
+	return o
+}
+
+func vC08Same(x, y vC08Outcome) bool {
+	same := vAnd(vRespEqAny(x.ra, y.ra), vRespEqAny(x.rb, y.rb))
+	for i := range x.keys {
+		same = vAnd(same, vSnapEq(x.keys[i], y.keys[i]))
+	}
+	return same
+}
+
+func vC08Interleave(table [][]string) {
+	VerifSetup()
+	vSetNow(vT0, 0)
+	kind := vChoice("kind", 5)
+	ttl := kind != preAbsent && vBool("ttl")
+	kv := "4"
+	if kind == preString && vBool("text") {
+		kv = "ab"
+	}
+	t := table[vChoice("cmd", len(table))]
+	args := make([]string, len(t))
+	for i, a := range t {
+		switch a {
+		case "$K":
+			args[i] = "k"
+		case "$S":
+			args[i] = "n"
+		case "$I":
+			args[i] = []string{"0", "1", "-1", "2"}[vChoice("i", 4)]
+		default:
+			args[i] = a
+		}
+	}
+	intf := vC08Interferers[vChoice("interferer", len(vC08Interferers))]
+
+	// the two serial orders
+	w1 := vC08Build(kind, ttl, kv)
+	ra1 := vCmd(w1.a, args...)
+	rb1 := vCmd(w1.b, intf...)
+	ab := vC08Observe(w1, ra1, rb1)
+	w2 := vC08Build(kind, ttl, kv)
+	rb2 := vCmd(w2.b, intf...)
+	ra2 := vCmd(w2.a, args...)
+	ba := vC08Observe(w2, ra2, rb2)
+
+	// the interleaved run: B's command at one section boundary of A's
+	w := vC08Build(kind, ttl, kv)
+	var ra, rb respValue
+	done := false
+	points := 0
+	vSetEnv(func(point string) bool {
+		points++
+		if done || !vBool("here") {
+			return false
+		}
+		done = true
+		rb = vCmd(w.b, intf...)
+		return true
+	})
+	parked := vRunBlockingOn(w.a, func() { ra = vCmd(w.a, args...) })
+	vAssert("non-blocking-command-returns", !parked)
+	if parked {
+		return
+	}
+	if !done {
+		// B ran at no boundary: it runs afterwards (the serial order A;B)
+		rb = vCmd(w.b, intf...)
+	}
+	got := vC08Observe(w, ra, rb)
+	vAssert("outcome-equals-a-serial-order", vOr(vC08Same(got, ab), vC08Same(got, ba)))
+	vReach("interferer-ran-at-a-section-boundary", done)
+}
+
+// VerifH_c08_interleave: the commands the property names.
+func VerifH_c08_interleave() { vC08Interleave(vC08Property) }
+
+// VerifH_c08_interleave_all: the whole command table (thorough tier).
+func VerifH_c08_interleave_all() { vC08Interleave(vL2Commands) }
